@@ -20,9 +20,9 @@ SIG = {
     'xor': {'sort': 'bytes', 'uf': True, 'facts': ['len(result) == len(a)']},
     # GHASH_H(X) of SP 800-38D 6.4, X a whole number of 128-bit blocks
     'ghash': {'sort': 'bytes', 'uf': True, 'facts': ['len(result) == 16']},
-    # CBC chaining value (SP 800-38A 6.2): last ciphertext block of CBC-encrypting `data` (whole blocks, non-empty)
-    # with chaining value `iv`; and the whole CBC ciphertext
-    'cbc': {'sort': 'bytes', 'uf': True, 'facts': ['len(result) == len(data)']},
+    # CBC chaining value (SP 800-38A 6.2): C_n of C_0 = iv, C_j = CIPH_K(C_{j-1} xor P_j) for data = P_1 .. P_n (whole
+    # blocks); for n = 0 it is iv itself
+    'cbc_chain': {'sort': 'bytes', 'uf': True, 'facts': ['len(result) == len(iv)', 'impl(len(data) == 0, result == iv)']},
     # ChaCha20 key stream bytes [pos, pos+n) for (key, nonce), block counter starting at 0 (RFC 8439 2.4)
     'chacha20_ks': {'sort': 'bytes', 'uf': True, 'facts': ['impl(n >= 0, len(result) == n)']},
     # HChaCha20(key, nonce16) (draft-irtf-cfrg-xchacha 2.2)
@@ -46,7 +46,7 @@ SIG = {
     'pad16': 'bytes', 'zeros': 'bytes', 'gcm_h': 'bytes', 'gcm_j0': 'bytes', 'inc32': 'bytes', 'gcm_s_input': 'bytes',
     'gcm_tag': 'bytes', 'ctr_limit': 'int', 'be4': 'int[nat]',
     'cp_mac_input': 'bytes', 'cp_s_input': 'bytes', 'cp_otk': 'bytes', 'nonce12': 'bytes',
-    'dbl': 'bytes', 'omac_k1': 'bytes', 'omac_k2': 'bytes', 'omac_last': 'bytes', 'omac': 'bytes', 'eax_tag': 'bytes',
+    'dbl': 'bytes', 'omac_k1': 'bytes', 'omac_k2': 'bytes', 'omac': 'bytes', 'omac_max': 'int', 'eax_omac': 'bytes', 'rb': 'int', 'bx': 'bytes',
 }
 
 
@@ -67,7 +67,7 @@ def ghash(h, data):
     pass
 
 
-def cbc(fid, key, iv, data):
+def cbc_chain(fid, key, iv, data):
     pass
 
 
@@ -180,22 +180,58 @@ def cp_mac_input(a, c):
     return pad16(a) + pad16(c) + u64le(len(a)) + u64le(len(c))
 
 
-# ================================================================== OMAC1 = CMAC, SP 800-38B
-def dbl(x, rb):
-    """6.1: (x << 1) if MSB(x) = 0 else (x << 1) xor R_b, on a string of len(x) bytes"""
-    if x[0] < 128:
-        return i2osp(2 * be(x), len(x))
-    return i2osp(xor_low(2 * be(x) - pow2(8 * len(x)), rb), len(x))
+# ================================================================== OMAC1 = CMAC, SP 800-38B (bs = block size in bytes: 8 or 16)
+def bx(a, b, n):
+    """bytewise xor of two n-byte blocks (n = 8 or 16): exact; kept opaque where only congruence is needed"""
+    return bxor(a, b, n)
 
 
-def xor_low(v, rb):
-    """v xor rb for an even v and an odd rb < 256: only the low byte changes"""
-    return v - v % 256 + xor8(v % 256, rb)
+def rb(bs):
+    """5.3: R_128 = 0^120 10000111, R_64 = 0^59 11011"""
+    if bs == 16:
+        return 135
+    return 27
 
 
-def xor8(a, b):
-    """xor of two values < 256, bit by bit"""
-    r = 0
-    for i in range(8):
-        r = r + ((a // (2 ** i) + b // (2 ** i)) % 2) * (2 ** i)
-    return r
+def dbl(x, bs):
+    """6.1 steps 2-3: (x << 1) if MSB_1(x) = 0, else (x << 1) xor R_b -- `<<` on a b-bit string drops the leading bit"""
+    v = (2 * be(x)) % (256 ** bs)
+    if x[0] >= 128:
+        v = v ^ rb(bs)
+    return ibe(v, bs)
+
+
+def omac_k1(fid, key, bs):
+    """6.1: L = CIPH_K(0^b), K1 = dbl(L)"""
+    return dbl(E(fid, key, rep(b'\x00', bs)), bs)
+
+
+def omac_k2(fid, key, bs):
+    return dbl(omac_k1(fid, key, bs), bs)
+
+
+def omac(fid, key, m, bs, tlen):
+    """6.2: n = 1 if Mlen = 0 else ceil(Mlen / b); M = M_1 .. M_{n-1} || M_n*; M_n = K1 xor M_n* if M_n* is a complete
+    block, else K2 xor (M_n* || 1 0^j); C_0 = 0^b, C_i = CIPH_K(C_{i-1} xor M_i); T = MSB_Tlen(C_n).
+    C_{n-1} is the CBC chaining value of M_1 .. M_{n-1}."""
+    r = len(m) % bs
+    if len(m) > 0 and r == 0:
+        head = m[:len(m) - bs]
+        last = bx(omac_k1(fid, key, bs), m[len(m) - bs:], bs)
+    else:
+        head = m[:len(m) - r]
+        last = bx(omac_k2(fid, key, bs), m[len(m) - r:] + b'\x80' + rep(b'\x00', bs - r - 1), bs)
+    return E(fid, key, bx(cbc_chain(fid, key, rep(b'\x00', bs), head), last, bs))[:tlen]
+
+
+def omac_max(bs):
+    """Appendix B: at most 2^48 message blocks per key for b = 128, 2^21 for b = 64 (as bytes)"""
+    if bs == 16:
+        return 16 * 2 ** 48
+    return 8 * 2 ** 21
+
+
+# ================================================================== EAX (Bellare, Rogaway, Wagner), Figure 3
+def eax_omac(fid, key, t, m, bs):
+    """OMAC^t_K(M) = OMAC_K([t]_n || M), full block"""
+    return omac(fid, key, rep(b'\x00', bs - 1) + bytes([t]) + m, bs, bs)
